@@ -45,6 +45,7 @@ impl ScriptCase {
             unsafe_mutations: false,
             allow_ext: self.allow_ext,
             allow_buffer: self.allow_buffer,
+            prior_calls: 0,
         }
     }
     pub fn names(&self) -> Vec<&'static str> {
